@@ -187,6 +187,80 @@ def _make(name, scenario):
     return h
 
 
+SAMPLES3 = ["301.125", "-302.75", "303.5", "-304.25", "305.625", "306.5", "-307.25"]
+SEQ_NAMES = ["marlin-pos", "marlin-temp", "marlin-temp-ok", "grbl-status", "grbl-probe"]
+
+
+def _make_seq(names, again_first):
+    """A SEQUENCE of reports of different families on one writer (again_first: the first report
+    arrives once more, verbatim, at the end): after every report each letter it mentions reads the
+    first value given there, every other letter keeps what earlier reports (or the initial
+    readings) said."""
+    sets = [SAMPLES, SAMPLES2, SAMPLES3]
+
+    def core(values, old_x, old_t, old_q):
+        w = pw_mod.PrintrunWriter("serial", "host", "port", 250000)
+        old_pat, had_float = pw_mod.VALUE_PATTERN, hasattr(pw_mod, "float")
+        plan = [(n, k) for k, n in enumerate(names)]
+        if again_first:
+            plan.append((names[0], 0))
+        messages, vals = [], []
+        if MODE.symbolic:
+            table = {}
+            for k in range(len(names)):
+                table.update(zip(sets[k], values[k]))
+            for n, k in plan:
+                messages.append(TEMPLATES[n][0].format(*sets[k]))
+                vals.append(values[k])
+            pw_mod.VALUE_PATTERN = PatternShim(old_pat, table)
+            pw_mod.float = _float_shim
+        else:
+            rendered = [[f"{v:.6f}" for v in vs] for vs in values]
+            for n, k in plan:
+                messages.append(TEMPLATES[n][0].format(*rendered[k]))
+                vals.append([float(x) for x in rendered[k]])
+            old_x, old_t, old_q = round(old_x, 6), round(old_t, 6), round(old_q, 6)
+        w._current_params["X"], w._current_params["T"], w._current_params["Q"] = old_x, old_t, old_q
+        model = {"X": old_x, "T": old_t, "Q": old_q}
+        try:
+            for step, ((n, k), message, vs) in enumerate(zip(plan, messages, vals)):
+                w._device_error = None
+                try:
+                    w._on_device_message(message + "\n")
+                except Exception as e:  # noqa: BLE001
+                    msg = f"{type(e).__name__}: {e}"
+                    return V("receive-callback-raised", msg)
+                if w._device_error is not None:
+                    err = w._device_error
+                    return V("report-stored-an-error", lambda: f"{message!r}: {err!r}")
+                for letter, idx in TEMPLATES[n][1].items():
+                    model[letter] = vs[idx]
+                ctx = lambda: f"after reports {messages[:step + 1]!r}"  # noqa: E731
+                for letter, want in model.items():
+                    got = w.get_parameter(letter)
+                    if got is None or not num_eq(got, want):
+                        kind = ("sequence-reading-is-not-the-first-value-in-the-last-report"
+                                if letter in TEMPLATES[n][1] else "sequence-earlier-reading-lost")
+                        return V(kind, lambda: f"get_parameter({letter!r}) = {got!r}, expected {want!r}; {ctx()}")
+        finally:
+            pw_mod.VALUE_PATTERN = old_pat
+            if MODE.symbolic and not had_float:
+                del pw_mod.float
+        reached("parsed")
+        return None
+
+    n = len(names)
+    params = [f"v{k}_{i}" for k in range(n) for i in range(7)] + ["old_x", "old_t", "old_q"]
+    src = (f"def h({', '.join(params)}):\n"
+           f"    return core([{', '.join('[' + ', '.join(f'v{k}_{i}' for i in range(7)) + ']' for k in range(n))}], "
+           f"old_x, old_t, old_q)\n")
+    ns = {"core": core}
+    exec(src, ns)
+    h = ns["h"]
+    h.__annotations__ = {p: Finite for p in params}
+    return h
+
+
 def _make_dispatch(kind):
     def h(flag: bool):
         w = pw_mod.PrintrunWriter("serial", "host", "port", 250000)
@@ -272,6 +346,15 @@ def cells(tier):
             out.append(Cell(f"report|{name}|{scenario}", _make(name, scenario),
                             budget_s=120 if tier == "quick" else 400, must_reach=("parsed",),
                             entry="PrintrunWriter._on_device_message"))
+    import itertools
+    seqs = [(s_, False) for s_ in itertools.product(SEQ_NAMES, repeat=2)]
+    seqs += [(s_, True) for s_ in itertools.product(SEQ_NAMES, repeat=2) if s_[0] != s_[1]]
+    if tier != "quick":
+        seqs += [(s_, False) for s_ in itertools.product(SEQ_NAMES, repeat=3)]
+    for s_, again in seqs:
+        out.append(Cell("sequence|" + ",".join(s_) + ("|first-again" if again else ""), _make_seq(s_, again),
+                        budget_s=120 if tier == "quick" else 400, must_reach=("parsed",),
+                        entry="PrintrunWriter._on_device_message (sequence of reports)"))
     for kind in ("ok", "error", "other"):
         out.append(Cell(f"dispatch|{kind}", _make_dispatch(kind), budget_s=60, must_reach=("parsed",),
                         entry="PrintrunWriter._on_device_message", note="concrete lines, enumerated"))
